@@ -29,7 +29,7 @@ func RunC06(c *Ctx) {
 	var lazy []byte
 	bigScratch := make([]byte, 0, 128<<10)
 	type heldStr struct{ got, want string }
-	var held []heldStr
+	var held, heldNil []heldStr
 	check := func(cs *h.Case) {
 		d := cs.Input
 		p0 := refmodel.SkipWS(d, 0)
@@ -121,6 +121,23 @@ func RunC06(c *Ctx) {
 					name = "ReadString(scratch that started with zero capacity)"
 				}
 				got, p, err := rjson.ReadString(d, buf)
+				if i == 0 {
+					// strings returned WITHOUT a scratch are held as well: the generators refill one input
+					// buffer, so a string backed by the input changes with the next case (C06r7-m2)
+					for _, hs := range heldNil {
+						if hs.got != hs.want {
+							c.Rec.Violate(cs, "a string returned by ReadString(data, nil) changed when the caller's input buffer was refilled", "ReadString", h.Quote([]byte(hs.want)), h.Quote([]byte(hs.got)))
+							heldNil = heldNil[:0]
+							break
+						}
+					}
+					if err == nil && len(got) <= 512 {
+						if len(heldNil) >= 4 {
+							heldNil = heldNil[1:]
+						}
+						heldNil = append(heldNil, heldStr{got, strings.Clone(got)})
+					}
+				}
 				if i == 2 {
 					for _, hs := range held {
 						if hs.got != hs.want {
